@@ -593,6 +593,11 @@ def check_tables_immutable(ctx: Ctx, rule: str = "IMMUT") -> int:
                         t = table_of(t_.value)
                         if t is not None:
                             bad.append((fi, n, t, "item store / delete"))
+                    elif isinstance(n, _ast.AugAssign) and isinstance(t_, (_ast.Name, _ast.Attribute)):
+                        # `alias -= {...}` / `Cls.table += [...]`: the augmented operators of list, set and dict work in place
+                        t = table_of(t_)
+                        if t is not None:
+                            bad.append((fi, n, t, "in-place augmented assignment"))
     ctx.check(not bad, rule, f"no function writes to a class-level lookup table ({len(tables)} tables, {n_sites} method calls on them inspected)",
               function=bad[0][0].qualname if bad else "MusicMapping",
               construct=f"{bad[0][2]} is modified at run time ({bad[0][3]})" if bad else "ok",
